@@ -2,6 +2,7 @@ package main
 
 import (
 	"bufio"
+	"syscall"
 	"context"
 	"crypto/sha1"
 	"encoding/hex"
@@ -22,6 +23,31 @@ import (
 )
 
 const verifDir = "/verif"
+
+// The harness writes its own output to a private duplicate of the original stdout; file descriptors 1 and 2
+// are then pointed at /dev/null so that fox's default loggers (which captured os.Stdout/os.Stderr at package
+// initialisation) cannot interleave with verdict lines.
+var out io.Writer = os.Stdout
+
+func isolateStdout() {
+	fd, err := syscall.Dup(1)
+	if err != nil {
+		return
+	}
+	keep := os.NewFile(uintptr(fd), "verdicts")
+	devnull, err := os.OpenFile(os.DevNull, os.O_WRONLY, 0)
+	if err != nil {
+		return
+	}
+	if os.Getenv("FOXCHECK_KEEP_STDERR") == "" {
+		syscall.Dup2(int(devnull.Fd()), 2)
+	}
+	syscall.Dup2(int(devnull.Fd()), 1)
+	out = keep
+}
+
+func outf(format string, a ...any) { fmt.Fprintf(out, format, a...) }
+func outln(a ...any)               { fmt.Fprintln(out, a...) }
 
 // exit codes
 const (
@@ -181,10 +207,10 @@ func (r *Run) violation(key string, replay map[string]any) {
 	p := filepath.Join(dir, r.ID+"-"+hex.EncodeToString(h[:6])+".json")
 	os.WriteFile(p, b, 0o644)
 	r.violations = append(r.violations, p)
-	fmt.Printf("VIOLATION property=%s replay=%s\n", r.ID, p)
-	fmt.Printf("  key: %s\n", key)
+	outf("VIOLATION property=%s replay=%s\n", r.ID, p)
+	outf("  key: %s\n", key)
 	if pr, ok := replay["prescribed"]; ok {
-		fmt.Printf("  prescribed: %v\n  obtained:   %v\n", jsonStr(pr), jsonStr(replay["obtained"]))
+		outf("  prescribed: %v\n  obtained:   %v\n", jsonStr(pr), jsonStr(replay["obtained"]))
 	}
 }
 
@@ -225,7 +251,7 @@ func (r *Run) finish() int {
 	}
 	sort.Strings(keys)
 	for _, k := range keys {
-		fmt.Printf("KNOWN-FINDING: property=%s %s (%s; seen %d times)\n", r.ID, r.knownSeen[k], k, r.known[k])
+		outf("KNOWN-FINDING: property=%s %s (%s; seen %d times)\n", r.ID, r.knownSeen[k], k, r.known[k])
 	}
 	cov := map[string]any{}
 	for k, v := range r.cov {
@@ -249,13 +275,13 @@ func (r *Run) finish() int {
 	b, _ := json.MarshalIndent(ev, "", " ")
 	os.MkdirAll(filepath.Join(verifDir, "evidence"), 0o755)
 	if err := os.WriteFile(filepath.Join(verifDir, "evidence", r.ID+".json"), b, 0o644); err != nil {
-		fmt.Println("cannot write evidence:", err)
+		outln("cannot write evidence:", err)
 		return exitTool
 	}
 	if len(r.violations) > 0 {
 		return exitViolation
 	}
-	fmt.Printf("OK property=%s tier=%s seed=%d wall=%.1fs %s\n", r.ID, r.Tier, r.Seed, time.Since(r.Start).Seconds(), covSummary(cov))
+	outf("OK property=%s tier=%s seed=%d wall=%.1fs %s\n", r.ID, r.Tier, r.Seed, time.Since(r.Start).Seconds(), covSummary(cov))
 	return exitOK
 }
 
